@@ -78,10 +78,10 @@ type ixWorld struct {
 	// doomed permanodes: one title claim and one delete claim each, delivered delete claim first
 	// while the sorted listings are read (index_tail.go)
 	doomed, doomedClaims, doomedDeletes []sto.Blob
-	items         []ixItem
-	nGroups       int
-	sharedGroupOf [2]int
-	signer2       *hw.Signer
+	items                               []ixItem
+	nGroups                             int
+	sharedGroupOf                       [2]int
+	signer2                             *hw.Signer
 }
 
 var (
